@@ -379,6 +379,7 @@ def run_property(prop, tier, seed, replay=None):
     nontrivial_digests = set()
     evaluations = 0
     samples = []
+    sample_strata = set()
     for case, rec in zip(cases, recs):
         if rec is None:
             inconclusive.append({"case": case, "why": "worker lost / timed out"})
@@ -413,7 +414,12 @@ def run_property(prop, tier, seed, replay=None):
         states.update(rec.get("states", []))
         if rec["nontrivial"]:
             nontrivial_digests.add(case_digest(case))
-        if len(samples) < 4 and rec["nontrivial"]:
+        # one written-out sample per kind of case (at most 8)
+        stratum = tuple(str(case.get(k)) for k in ("kind", "algo", "routine", "cls",
+                                                   "which", "head", "loss", "sched")
+                        if isinstance(case, dict) and k in case)
+        if rec["nontrivial"] and stratum not in sample_strata and len(samples) < 8:
+            sample_strata.add(stratum)
             samples.append(
                 {"case": case, "observed": rec["obs"], "wall_s": rec.get("wall")}
             )
